@@ -103,7 +103,7 @@ impl Ctx {
             Err(p) => self.out.case("", &[], &rp, &p, Some(false), &format!("{cls}-unlock-panic")),
         }
         // --- wrong passwords
-        let mut wrongs: Vec<Vec<u8>> = vec![[pw, b"x"].concat(), pw[..pw.len().saturating_sub(1)].to_vec(), pw.iter().map(|b| b ^ 0x20).collect(), vec![]];
+        let mut wrongs: Vec<Vec<u8>> = vec![{ let mut v = pw.to_vec(); if let Some(l) = v.last_mut() { *l ^= 1; } v }, [pw, b"x"].concat(), pw[..pw.len().saturating_sub(1)].to_vec(), pw.iter().map(|b| b ^ 0x20).collect(), vec![]];
         wrongs.retain(|x| x != pw);
         wrongs.dedup();
         for wp in wrongs {
@@ -240,6 +240,23 @@ fn main() {
             let (vn, params) = &vars[(off + i * 7) % vars.len()];
             let pw = &pws[(ki + i) % pws.len()];
             cx.lock_case(kname, sk, vn, params, pw);
+        }
+    }
+    // passwords at the edge of the iterated S2K octet count: when salt + password is longer than the
+    // coded count the whole of both is hashed once (3.7.1.3); every trailing password octet matters
+    {
+        let (kname, sk) = &keys[0];
+        let (k6name, sk6) = keys.iter().find(|(n, _)| n.starts_with("v6")).unwrap_or(&keys[0]);
+        for (coded, decoded) in [(0u8, 1024usize), (1, 1088)] {
+            for len in [decoded - 9, decoded - 8, decoded - 7, decoded - 4, decoded, decoded + 1, decoded + 76] {
+                let mut pw = cx.rng.bytes(len); for b in pw.iter_mut() { if *b == 0 { *b = 1; } }
+                let mut salt = [0u8; 8]; salt.copy_from_slice(&cx.rng.bytes(8));
+                let s2k = StringToKey::IteratedAndSalted { hash_alg: HashAlgorithm::Sha256, salt, count: coded };
+                let cfb = S2kParams::Cfb { sym_alg: SymmetricKeyAlgorithm::AES256, s2k: s2k.clone(), iv: cx.rng.bytes(16).into() };
+                cx.lock_case(kname, sk, &format!("cfb-aes256-iter{coded}-longpw{len}"), &cfb, &pw);
+                let aead = S2kParams::Aead { sym_alg: SymmetricKeyAlgorithm::AES128, aead_mode: AeadAlgorithm::Ocb, s2k, nonce: cx.rng.bytes(15).into() };
+                cx.lock_case(k6name, sk6, &format!("aead-ocb-aes128-iter{coded}-longpw{len}"), &aead, &pw);
+            }
         }
     }
     cx.out.finish();
